@@ -19,7 +19,7 @@ WORKERS="${VERIF_WORKERS:-16}"
 
 case "$ID" in
   C05) WORLD=radio; RUNS=20000 ;;
-  C07) WORLD=reg;   RUNS=20000 ;;
+  C07) WORLD=reg;   RUNS=40000 ;;
   C10) WORLD=iso;   RUNS=8000 ;;
   C14) WORLD=adr;   RUNS=2000 ;;
   C15) WORLD=plan;  RUNS=8000 ;;
